@@ -775,10 +775,10 @@ func (r *Row) unmarshalIndexOptions(src []byte, indexOptionPool []IndexOption) (
 		indexOpt.Oid = encoding.UnmarshalUint32(src[:4])
 		src = src[4:]
 		indexListLen := encoding.UnmarshalUint16(src[:2])
-		if int(indexListLen) < cap(indexOpt.IndexList) {
+		if int(indexListLen) <= cap(indexOpt.IndexList) {
 			indexOpt.IndexList = indexOpt.IndexList[:indexListLen]
 		} else {
-			indexOpt.IndexList = append(indexOpt.IndexList, make([]uint16, int(indexListLen)-cap(indexOpt.IndexList))...)
+			indexOpt.IndexList = append(indexOpt.IndexList[:cap(indexOpt.IndexList)], make([]uint16, int(indexListLen)-cap(indexOpt.IndexList))...)
 		}
 		src = src[2:]
 		for j := 0; j < int(indexListLen); j++ {
